@@ -63,6 +63,9 @@ type variablesMappingVisitor struct {
 	mapping               map[string]string
 	variables             []*variableItem
 	operationRef          int
+	// keptNames are the names of the variables of the operation which are not remapped
+	// (e.g. file uploads): a generated name must not collide with them
+	keptNames []string
 }
 
 type variableItem struct {
@@ -72,6 +75,8 @@ type variableItem struct {
 }
 
 func (v *variablesMappingVisitor) LeaveDocument(operation, definition *ast.Document) {
+	v.collectKeptNames()
+
 	for _, variableItem := range v.variables {
 		mappingName := v.generateUnusedVariableMappingName()
 		v.mapping[string(mappingName)] = variableItem.variableName
@@ -108,6 +113,23 @@ func (v *variablesMappingVisitor) LeaveDocument(operation, definition *ast.Docum
 			v.operation.VariableValueNameString(v.operation.VariableDefinitions[j].VariableValue.Ref),
 		)
 	})
+}
+
+// collectKeptNames records the names of the variable definitions which keep their name,
+// because they were not collected for remapping.
+func (v *variablesMappingVisitor) collectKeptNames() {
+	v.keptNames = v.keptNames[:0]
+	if v.operationRef < 0 || v.operationRef >= len(v.operation.OperationDefinitions) {
+		return
+	}
+	for _, variableDefinitionRef := range v.operation.OperationDefinitions[v.operationRef].VariableDefinitions.Refs {
+		remapped := slices.ContainsFunc(v.variables, func(i *variableItem) bool {
+			return i.variableDefinitionRef == variableDefinitionRef
+		})
+		if !remapped {
+			v.keptNames = append(v.keptNames, v.operation.VariableDefinitionNameString(variableDefinitionRef))
+		}
+	}
 }
 
 func (v *variablesMappingVisitor) EnterArgument(ref int) {
@@ -182,7 +204,7 @@ func (v *variablesMappingVisitor) generateUnusedVariableMappingName() []byte {
 				out[k] = alphabet[j]
 			}
 			_, exists := v.mapping[string(out)]
-			if !exists {
+			if !exists && !slices.Contains(v.keptNames, string(out)) {
 				return out
 			}
 		}
